@@ -210,6 +210,10 @@ def run_tree(rec, tier, seed, ti, spec, other):
                         el.tail = "\r\n"
                     if len(el) and el.text is not None and not el.text.strip():
                         el.text = "\r\n"
+                for k, el in enumerate(root.iter("value")):
+                    # ordinals are decimal numbers: leading zeros change nothing
+                    if el.text is not None and el.text.strip().isdigit() and k % 2 == 0:
+                        el.text = ("0", "00")[k % 4 // 2] + el.text.strip()
                 for el in list(root.iter()):
                     if len(el) and el.tag in ("protocol", "struct", "packet", "enum", "chunked", "switch", "case"):
                         el.insert(len(el) // 2, ET.Comment(" reviewed: %s " % el.tag))
